@@ -270,7 +270,7 @@ func (v *CV) coq() string {
 
 // Case: a statically typed chunk list.
 type Case struct {
-	Kind   string   `json:"kind"` // "generic" | "msg" | "msglist" | "msgmap"
+	Kind   string   `json:"kind"` // "generic" | "msg" | "msglist" | "msgmap" | "deep"
 	Chunks []*CV    `json:"chunks,omitempty"`
 	API    int      `json:"api,omitempty"`   // msg: which entry point is sent to the model (see msg.go)
 	Chain  bool     `json:"chain,omitempty"` // msg: also run through a compose chain
@@ -283,6 +283,8 @@ type Case struct {
 	// generic (not any) / msg: the reader reports a read error in front of chunk ErrAt (0..len); only the
 	// stream-level entry points are run
 	ErrAt *int `json:"err_at,omitempty"`
+	// deep: map[string]any chunks with messages / message lists / nested maps at any depth (deep.go)
+	Deep []DMap `json:"deep,omitempty"`
 }
 
 // coqItems: what the reader delivers as a list of sitem (Model/ConcatStream.v)
@@ -703,7 +705,7 @@ type engine struct{}
 
 func (engine) ID() string { return "C14" }
 func (engine) CoqHeader() string {
-	return "From Eino Require Import Base.Util Model.Concat Model.ConcatMsg Model.ConcatMsgMap Corr.C14.\n"
+	return "From Eino Require Import Base.Util Model.Concat Model.ConcatMsg Model.ConcatMsgMap Model.ConcatStream Model.ConcatDeep Corr.C14.\n"
 }
 func (engine) CoqCaseType() string { return "ccase" }
 
@@ -748,6 +750,15 @@ func (engine) Run(ci any) lib.Result {
 		res.Tags = append(res.Tags, "feat:registered-type")
 	}
 	res.Tags = append(res.Tags, clashTags(c.Chunks)...)
+	if isNumCase(c.Chunks) {
+		res.Tags = append(res.Tags, "feat:registered-interface-type")
+	}
+	if hasCV(c.Chunks, func(v *CV) bool { return v.K == "map" && v.NilMap }) {
+		res.Tags = append(res.Tags, "feat:nil-map")
+	}
+	if hasCV(c.Chunks, func(v *CV) bool { return v.K == "map" && v.MT == 3 }) {
+		res.Tags = append(res.Tags, "feat:int-key-map")
+	}
 	res.Nontrivial = len(c.Chunks) >= 2
 	res.CoqTerm = lib.CoqApp("CaseGen", lib.CoqList(mapCoq(c.Chunks)), o.coq())
 	if c.Any {
@@ -792,6 +803,11 @@ func (engine) Run(ci any) lib.Result {
 				res.Oracle = "non-deterministic result: " + js(o) + " vs " + js(o2)
 				res.Sig = "generic-nondet"
 			}
+		}
+		// a function registered for the static chunk type is what concatenates >= 2 chunks
+		if why := registeredSpec(c, o); why != "" && res.Oracle == "" {
+			res.Oracle = why
+			res.Sig = "registered-fn-not-applied"
 		}
 		// re-chunking: concatenate any segment [i,j) first, splice the result in, concatenate again
 		n := len(c.Chunks)
@@ -953,6 +969,55 @@ func clashTags(chunks []*CV) []string {
 		out = append(out, "feat:same-kind-clash")
 	}
 	return out
+}
+
+// registeredSpec: for a statically typed stream (>= 2 chunks) of one of the types this
+// harness registered a concat function for, the result must be what that function computes
+// (an independent statement of user.go: Acc / Num sum, Lim sum or an error above 5).
+func registeredSpec(c *Case, o Obs) string {
+	if c.Any || len(c.Chunks) < 2 || c.Chunks[0].K != "other" {
+		return ""
+	}
+	tag := c.Chunks[0].Tag
+	if tag != 6 && tag != 7 && tag != 9 {
+		return ""
+	}
+	sum := 0
+	for _, v := range c.Chunks {
+		if v.K != "other" || v.Tag != tag {
+			return ""
+		}
+		sum += v.P
+	}
+	name := map[int]string{6: "Acc", 7: "Lim", 9: "Num"}[tag]
+	if tag == 7 && sum > 5 {
+		if o.Class != "err" {
+			return fmt.Sprintf("the function registered for %s fails on this chunk list (sum %d), concatenation returned %s", name, sum, js(o))
+		}
+		return ""
+	}
+	if o.Class != "val" || o.Val.K != "other" || o.Val.Tag != tag || o.Val.P != sum {
+		return fmt.Sprintf("the function registered for %s gives %d on this chunk list, concatenation returned %s", name, sum, js(o))
+	}
+	return ""
+}
+
+// hasCV: some value (at any depth) satisfies p
+func hasCV(vs []*CV, p func(*CV) bool) bool {
+	for _, v := range vs {
+		if v == nil {
+			continue
+		}
+		if p(v) {
+			return true
+		}
+		for _, e := range v.M {
+			if hasCV([]*CV{e}, p) {
+				return true
+			}
+		}
+	}
+	return false
 }
 
 func mapCoq(vs []*CV) []string {
